@@ -6,10 +6,12 @@
 namespace {
 
 using SF = cocls::shared_future<Counted>;
-enum Ctor { C_PROMISE_FN = 0, C_FUTURE_FN_PENDING, C_FUTURE_FN_READY, C_DEFAULT_GETPROMISE, C_PROMISE_FN_THREAD, C_FUTURE_FN_THREAD, C_SHIFT_PENDING, C_SHIFT_THREAD, C_NK };
+enum Ctor { C_PROMISE_FN = 0, C_FUTURE_FN_PENDING, C_FUTURE_FN_READY, C_DEFAULT_GETPROMISE, C_PROMISE_FN_THREAD, C_FUTURE_FN_THREAD, C_SHIFT_PENDING, C_SHIFT_THREAD, C_REUSE, C_NK };
 // shift*: init_if_needed(), a copy is taken, then `original << function returning a pending future`; the handle everybody uses is the
 // copy made BEFORE the <<, the original dies right after it
-static const char *ctor_names[] = {"promfn", "futfn", "futready", "getpromise", "promfn-thread", "futfn-thread", "shift", "shift-thread"};
+static const char *ctor_names[] = {"promfn", "futfn", "futready", "getpromise", "promfn-thread", "futfn-thread", "shift", "shift-thread", "reuse"};
+// reuse: a shared_future that was constructed pending and has been resolved is given a new pending future with operator<<
+// ("future is destroyed and recreated"): it is pending again and behaves like a fresh one
 // assign: the resolver move-assigns an empty promise over the one it holds; dtor: it lets the promise die. Both resolve to no-value.
 enum RKind { R_VAL = 0, R_EXC, R_DROP, R_ASSIGN, R_DTOR, R_NK };
 static const char *rk_names[] = {"val", "exc", "drop", "assign", "dtor"};
@@ -148,6 +150,13 @@ static void scenario(int ctor, int rk, int nh, const int *scripts, int main_drop
                 orig.init_if_needed();
                 sf.reset(new SF(orig));
                 orig << [&] { return cocls::future<Counted>([&](cocls::promise<Counted> p) { saved = std::move(p); }); };
+                break;
+            }
+            case C_REUSE: {
+                cocls::promise<Counted> first;
+                sf.reset(new SF([&](cocls::promise<Counted> p) { first = std::move(p); }));
+                first(Counted(1));
+                *sf << [&] { return cocls::future<Counted>([&](cocls::promise<Counted> p) { saved = std::move(p); }); };
                 break;
             }
             case C_SHIFT_THREAD: {
